@@ -231,3 +231,11 @@ pub fn norm_msg(msg: &str) -> String {
     }
     out
 }
+
+/// Offset of the payload inside a DiskCache backing file: the cache prefixes a 16-byte header
+/// (magic `CSCCACH1` + expiry) since the expiry-persistence fix; older trees store the bare
+/// payload. Fault injectors corrupt the payload and keep the header, otherwise the cache rejects
+/// the file before any content validation is reached.
+pub fn disk_cache_payload_offset(raw: &[u8]) -> usize {
+    if raw.len() >= 16 && &raw[..8] == b"CSCCACH1" { 16 } else { 0 }
+}
